@@ -705,7 +705,6 @@ func checkTransportMutexes(res *Result, p *Pub) {
 	}
 }
 
-
 // checkDrainTotal: every receive from the error channel of BatchDeliver lies in
 // a loop that is left only when the channel is known empty: through the default
 // case of a non-blocking select that has the receive case, through the !ok of a
